@@ -69,20 +69,32 @@ def models(rng, quick):
     u = rng.uniform
     out = []
     for _ in range(1 if quick else 10):
-        out.append(("hem", HEMModel(HEMParameters(u(0.05, 0.4), u(0.2, 0.8), u(3, 30), u(3, 30), u(0.5, 8)))))
-        out.append(("merton", MertonModel(MertonParameters(u(0.05, 0.4), u(0.01, 0.3), u(0.1, 0.4), u(0.5, 8)))))
-        out.append(("vg", VarianceGammaModel(VGParameters(u(0.1, 0.4), u(0.1, 0.6), u(-0.3, 0.2)))))
+        ph = (u(0.05, 0.4), u(0.2, 0.8), u(3, 30), u(3, 30), u(0.5, 8))
+        pm = (u(0.05, 0.4), u(0.01, 0.3), u(0.1, 0.4), u(0.5, 8))
+        pv = (u(0.1, 0.4), u(0.1, 0.6), u(-0.3, 0.2))
+        ph0 = (0.0, u(0.2, 0.8), u(3, 30), u(3, 30), u(0.5, 8))
+        pm0 = (0.0, u(0.05, 0.3), u(0.1, 0.4), u(0.5, 8))
+        # factories: built inside the scenario, so that a constructor that raises is a recorded exception
+        out.append(("hem", lambda ph=ph: HEMModel(HEMParameters(*ph))))
+        out.append(("merton", lambda pm=pm: MertonModel(MertonParameters(*pm))))
+        out.append(("vg", lambda pv=pv: VarianceGammaModel(VGParameters(*pv))))
         # jump-diffusions without diffusion: the compensating drift is still there
-        out.append(("hem_nosigma", HEMModel(HEMParameters(0.0, u(0.2, 0.8), u(3, 30), u(3, 30), u(0.5, 8)))))
-        out.append(("merton_nosigma", MertonModel(MertonParameters(0.0, u(0.05, 0.3), u(0.1, 0.4), u(0.5, 8)))))
+        out.append(("hem_nosigma", lambda ph0=ph0: HEMModel(HEMParameters(*ph0))))
+        out.append(("merton_nosigma", lambda pm0=pm0: MertonModel(MertonParameters(*pm0))))
         for tag, y in (("cgmy_neg", u(-1.6, -0.2)), ("cgmy_0", 0.0), ("cgmy_01", u(0.1, 0.9)), ("cgmy_1", 1.0),
                        ("cgmy_12", u(1.1, 1.8))):
-            out.append((tag, CGMYModel(CGMYParameters(u(0.05, 2.0), u(2.5, 12.0), u(2.5, 12.0), y))))
+            pc = (u(0.05, 2.0), u(2.5, 12.0), u(2.5, 12.0), y)
+            out.append((tag, lambda pc=pc: CGMYModel(CGMYParameters(*pc))))
     return out
 
 
-def one(tag, m, rng):
+def one(tag, factory, rng):
     from rpylib.model.levymodel.levymodel import LevyRepresentation as R
+    try:
+        m = factory()
+    except Exception as ex:
+        return {"hdr": {"kind": "exponent:" + tag, "rep": "?"},
+                "ev": [{"e": "Raise", "what": "constructor: " + type(ex).__name__ + ": " + str(ex)[:80]}]}
     nu = m.levy_triplet.nu
     rep = m.levy_triplet.representation
     a = float(m.levy_triplet.a)          # read right after construction: the drift of the declared representation
